@@ -42,7 +42,7 @@ func (c20) Assumptions() []string {
 	}
 }
 func (c20) Required(tier string) []string {
-	return []string{"shape-big-then-small-siblings", "shape-escapes-every-level", "shape-deep", "shape-escaped-children", "shape-large-tree", "history-large-then-many-small", "history-failing-small-docs", "A-abort", "P-evict", "doc>=100KB", "reused-buffer", "reused-reader", "history-deep-then-tiny-on-one-buffer", "scaling-step-checked", "shape-deep-uncapped", "document-decoded-member-by-member-in-a-traversal", "shape-records", "small-documents-after-history-vs-fresh-state-compared", "every-string-member-read-into-a-fresh-destination"}
+	return []string{"shape-big-then-small-siblings", "shape-escapes-every-level", "shape-deep", "shape-escaped-children", "shape-large-tree", "history-large-then-many-small", "history-failing-small-docs", "A-abort", "P-evict", "doc>=100KB", "reused-buffer", "reused-reader", "history-deep-then-tiny-on-one-buffer", "scaling-step-checked", "shape-deep-uncapped", "document-decoded-member-by-member-in-a-traversal", "shape-records", "small-documents-after-history-vs-fresh-state-compared", "one-shape-up-to-4MB", "every-string-member-read-into-a-fresh-destination"}
 }
 
 func repeatStr(s string, n int) []byte { return bytes.Repeat([]byte(s), n) }
@@ -171,6 +171,9 @@ func c20Shape(r *Rand, shape, size int) Doc {
 			b.WriteString("1],[]]")
 		}
 		return docOf(b.Bytes(), "shape-big-then-small-siblings")
+	case 12: // one flat array of scalars, nothing else
+		unit := []string{"1.5,", "7,", `"s",`, "null,", "true,"}[r.Intn(5)]
+		return docRep("shape-flat-array", "[", 1, unit, size/len(unit)+1, "0]", 1)
 	case 11: // many short escaped strings, flat: what a handler reads one by one
 		unit := []string{`"\ud83d\ude00",`, `"a\nb",`, `"\u00e9t\u00e9",`, `"plain",`, `"\u20ac\u20ac\u20ac\u20ac",`}[r.Intn(5)]
 		n := size / len(unit)
@@ -236,6 +239,23 @@ func (c20) Gen(r *Rand, sc *Scenario, tier string) {
 	if tier == "thorough" || r.Chance(1, 3) {
 		maxSize = 400000
 	}
+	if sc.Index%2000 == 33 {
+		// one shape at 40 KB, 400 KB and 4 MB: a quadratic term with a small coefficient (growth in fixed
+		// steps, a per-element rescan) needs millions of elements before it dominates
+		shape := []int{12, 10, 12, 0, 1, 6}[(sc.Index/2000)%6]
+		kind := []string{"VR.ReadValue", "ReadValue", "VR.ReadArray"}[r.Intn(3)]
+		if shape == 1 {
+			kind = "VR.ReadValue"
+		}
+		sc.Cfg["growing"] = 1
+		sc.Cfg["to-4MB"] = 1
+		subSeed := r.Uint64()
+		for s := 40000; s <= 4000000; s *= 10 {
+			add(c20Shape(NewRand(subSeed), shape, s), kind, 1)
+		}
+		sc.Tasks = [][]Op{ops}
+		return
+	}
 	switch r.Pick(5, 4, 2, 2) {
 	case 3: // one deep document on a Buffer, then many tiny validations / traversals with the same Buffer
 		first := c20Walkers[r.Intn(len(c20Walkers))]
@@ -279,7 +299,7 @@ func (c20) Gen(r *Rand, sc *Scenario, tier string) {
 			}
 		}
 	case 1: // one large document, then many small ones on the same reader / buffer
-		shape := []int{0, 1, 6, 7, 2, 8, 8}[r.Intn(7)]
+		shape := []int{0, 1, 6, 7, 2, 8, 8, 5, 5}[r.Intn(9)]
 		kind := c20Decoders[r.Intn(len(c20Decoders))]
 		if r.Chance(1, 5) {
 			kind = c20Walkers[r.Intn(len(c20Walkers))]
@@ -289,7 +309,7 @@ func (c20) Gen(r *Rand, sc *Scenario, tier string) {
 		if tier == "thorough" && r.Chance(1, 4) {
 			m = 20000
 		}
-		small := [][]byte{[]byte(`[[]]`), []byte(`[0,[]]`), []byte(`{"a":[]}`), []byte(`[[],[]]`), []byte(`{"a":1}`), []byte(`[1,2]`), []byte(`{"a":{"b":[]}}`), []byte(`[{}]`), []byte(`{"a":`), []byte(`[1,`), []byte(`null`), []byte(`{}`), []byte(`[]`), []byte(`[[[]]]`), []byte(`{"\n":"\t"}`), []byte(`[1e999]`)}
+		small := [][]byte{[]byte(`[[]]`), []byte(`[0,[]]`), []byte(`{"a":[]}`), []byte(`[[],[]]`), []byte(`{"a":1}`), []byte(`[1,2]`), []byte(`{"a":{"b":[]}}`), []byte(`[{}]`), []byte(`{"a":`), []byte(`[1,`), []byte(`null`), []byte(`{}`), []byte(`[]`), []byte(`[[[]]]`), []byte(`{"\n":"\t"}`), []byte(`[1e999]`), []byte(`["b"]`), []byte(`{"a":"b"}`), []byte(`[["b"]]`), []byte(`["\u00e9"]`)}
 		nk := r.Range(1, 3)
 		for k := 0; k < nk; k++ {
 			s := small[r.Intn(len(small))]
@@ -342,12 +362,15 @@ func (c20) Exec(sc *Scenario, st *Stats) *Violation {
 	pool.install()
 	defer uninstallPool()
 	reader := &rjson.ValueReader{}
+	if sc.cfg("to-4MB") == 1 {
+		st.probe("one-shape-up-to-4MB")
+	}
 	buf := &rjson.Buffer{}
 	rh := &replayHandler{}
 	var m0, m1 runtime.MemStats
 	var totalAlloc, totalIn, calls uint64
 	nOnShared := 0
-	prevRatio, prevLen := -1.0, 0
+	prevRatio, prevLen, prevOK := -1.0, 0, false
 	for oi, op := range sc.Tasks[0] {
 		if op.Kind == "evict-pool" {
 			pool.evictAll()
@@ -512,7 +535,10 @@ func (c20) Exec(sc *Scenario, st *Stats) *Violation {
 			if sc.cfg("growing") == 1 && n == 1 && len(data) > 0 {
 				// the same shape at growing sizes: bytes allocated per input byte must not grow with size
 				ratio := float64(delta) / float64(len(data))
-				if prevRatio >= 0 && len(data) >= 5*prevLen {
+				// (per-byte figures of documents below 2 000 bytes are dominated by fixed costs and amortised
+				// growth steps: they are not compared)
+				// ... and both calls must have succeeded: a document that fails early allocates next to nothing
+				if prevRatio >= 1 && prevOK && ok && len(data) >= 5*prevLen && prevLen >= 2000 {
 					st.probe("scaling-step-checked")
 					if c20debug {
 						fmt.Fprintf(os.Stderr, "C20SCALE %s %s len %d->%d ratio %.1f->%.1f\n", op.Kind, d.Class, prevLen, len(data), prevRatio, ratio)
@@ -522,7 +548,7 @@ func (c20) Exec(sc *Scenario, st *Stats) *Violation {
 							Detail: fmt.Sprintf("%s on shape %s: %.1f bytes allocated per input byte at %d bytes, %.1f at %d bytes - cost per byte grows with size", op.Kind, d.Class, prevRatio, prevLen, ratio, len(data))}
 					}
 				}
-				prevRatio, prevLen = ratio, len(data)
+				prevRatio, prevLen, prevOK = ratio, len(data), ok
 			}
 			// (3) differential: a run of small documents on the reader / Buffer that carries the history must
 			// not cost much more per call than the same run on a fresh reader / Buffer. This is the statement's
